@@ -1,7 +1,7 @@
 // C14 harness: copy_pixels on run-time typed views (see bin.hpp for the op format):  copy <mode> T1 T2 w1 h1 w2 h2 s1 s2 dpos
 #include "bin.hpp"
 using namespace c14;
-struct CopyAlg { static constexpr bool needs_compat = true;
+struct CopyAlg { static constexpr bool needs_equal_dims = true; static constexpr bool needs_compat = true;
     template <class S, class D> std::string operator()(S const& s, D const& d) const { gil::copy_pixels(s, d); return ""; } };
 int main() {
     return hv::run([](std::string const& line) -> std::string {
